@@ -421,6 +421,62 @@ func Hazards(j *job.Job, s *job.Sink) {
 			cd.Texts = append(cd.Texts, t)
 			cd.Names = append(cd.Names, fmt.Sprintf("h%d.yang", k))
 		}
+		if r.Intn(12) == 0 {
+			// towers: every level refers twice (or three times) to the level below, through
+			// unions, typedef chains, groupings or identities - work that doubles per level
+			// unless results, and failures, are remembered
+			depth := 18 + r.Intn(30)
+			fan := 2 + r.Intn(2)
+			var b strings.Builder
+			b.WriteString("module tw { namespace \"urn:tw\"; prefix tw; yang-version 1.1;\n")
+			switch r.Intn(4) {
+			case 0:
+				fmt.Fprintf(&b, "typedef t0 { type %s; }\n", fill["%T"][r.Intn(len(fill["%T"]))])
+				for k := 1; k <= depth; k++ {
+					fmt.Fprintf(&b, "typedef t%d { type union {", k)
+					for f := 0; f < fan; f++ {
+						fmt.Fprintf(&b, " type t%d;", k-1)
+					}
+					b.WriteString(" } }\n")
+				}
+				fmt.Fprintf(&b, "leaf l { type t%d; }\n", depth)
+			case 1:
+				// the expansion of such a tower is legitimately exponential in size (and
+				// goyang converts every grouping, used or not), so it stays low
+				depth = 4 + r.Intn(10)
+				if fan == 3 && depth > 8 {
+					depth = 8
+				}
+				fmt.Fprintf(&b, "grouping g0 { leaf x { type %s; } }\n", fill["%T"][r.Intn(len(fill["%T"]))])
+				for k := 1; k <= depth; k++ {
+					fmt.Fprintf(&b, "grouping g%d {", k)
+					for f := 0; f < fan; f++ {
+						fmt.Fprintf(&b, " container c%d { uses g%d; }", f, k-1)
+					}
+					b.WriteString(" }\n")
+				}
+				fmt.Fprintf(&b, "uses g%d;\n", depth)
+			case 2:
+				b.WriteString("identity i0 { base nosuchbase; }\n")
+				for k := 1; k <= depth; k++ {
+					fmt.Fprintf(&b, "identity i%d {", k)
+					for f := 0; f < fan && f < k; f++ {
+						fmt.Fprintf(&b, " base i%d;", k-1-f)
+					}
+					b.WriteString(" }\n")
+				}
+				fmt.Fprintf(&b, "leaf l { type identityref { base i%d; } }\n", depth)
+			default:
+				fmt.Fprintf(&b, "typedef t0 { type string { pattern \"[a\"; length \"5..1\"; } }\n")
+				for k := 1; k <= depth; k++ {
+					fmt.Fprintf(&b, "typedef t%d { type union { type t%d { length \"1..%d\"; } type t%d; type union { type t%d; } } }\n", k, k-1, k, k-1, k-1)
+				}
+				fmt.Fprintf(&b, "leaf l { type t%d; } leaf-list ll { type t%d; }\n", depth, depth-1)
+			}
+			b.WriteString("}\n")
+			cd.Texts = append(cd.Texts, b.String())
+			cd.Names = append(cd.Names, "tw.yang")
+		}
 		if r.Intn(4) == 0 {
 			cd.Texts = append(cd.Texts, `module n { namespace "urn:n"; prefix n; typedef t { type string; } grouping g { leaf gl { type t; } } container c { leaf d { type string; } } }`)
 			cd.Names = append(cd.Names, "n.yang")
